@@ -207,9 +207,10 @@ pub open spec fn dec_msg(s: Seq<u8>) -> Option<(MsgV, nat)> {
                 match dec_tag(s1) {
                     None => None,
                     Some((p, k2)) => if p == 0 {
-                        match dec_buf(s1.skip(k2 as int)) {
+                        // `read_string`: a length-prefixed buffer that must be VALID UTF-8 (else Err(UnexpectedValue))
+                        match dec_str(s1.skip(k2 as int)) {
                             None => None,
-                            Some((b, k3)) => Some((MsgV::Auth(Some(from_utf8(b))), k + k2 + k3)),
+                            Some((r, k3)) => Some((MsgV::Auth(Some(r)), k + k2 + k3)),
                         }
                     } else {
                         Some((MsgV::Auth(None), k + k2))
@@ -223,6 +224,21 @@ pub open spec fn dec_msg(s: Seq<u8>) -> Option<(MsgV, nat)> {
                     Some((b, k2)) => Some((MsgV::Custom(tag, b), k + k2)),
                 }
             }
+        },
+    }
+}
+
+/// the input class of the repaired defect (C10): an Auth/PERMISSION_DENIED message whose reason is a well-framed buffer that is
+/// NOT valid UTF-8.  (Before 6f5f4d8 `read_string` was `from_utf8_unchecked`: such a payload decoded "successfully".)
+pub open spec fn msg_reason_invalid_utf8(s: Seq<u8>) -> bool {
+    match dec_tag(s) {
+        None => false,
+        Some((tag, k)) => tag == 2 && match dec_tag(s.skip(k as int)) {
+            None => false,
+            Some((p, k2)) => p == 0 && match dec_buf(s.skip(k as int).skip(k2 as int)) {
+                None => false,
+                Some((b, k3)) => !valid_utf8(b),
+            },
         },
     }
 }
@@ -270,6 +286,8 @@ impl Message {
                 Some((m, k)) => res is Ok && res->Ok_0.v() == m && k <= old(decoder).rest().len() && final(decoder).rest() == old(decoder).rest().skip(k as int),
                 None => res is Err,
             },
+            // a reason that is not valid UTF-8 is a decoding ERROR of the documented kind (never a value)
+            msg_reason_invalid_utf8(old(decoder).rest()) ==> res is Err && res->Err_0 is UnexpectedValue,
             suffix_of(old(decoder).rest(), final(decoder).rest()),
     @start
         let ghost s0 = decoder.rest();
@@ -369,6 +387,7 @@ pub proof fn lemma_msg_rt_auth_denied(r: Seq<char>, tail: Seq<u8>)
     lemma_tag_round_trip(0, enc_buf(utf8(r)) + tail);
     lemma_buf_round_trip(utf8(r), tail);
     law_utf8_round_trip(r);
+    law_utf8_valid(r);
     assert(dec_tag(x) == Some((2u8, e.len())));
     assert(x.skip(e.len() as int) == x1);
     assert(dec_tag(x1) == Some((0u8, e2.len())));
